@@ -16,7 +16,8 @@ import glob, hashlib, json, os, re, shutil, subprocess, sys, time
 
 HERE = os.path.dirname(os.path.dirname(os.path.abspath(__file__)))
 FUZZ = f"{HERE}/harness/fuzz"
-BRIDGE = f"{FUZZ}/target/x86_64-unknown-linux-gnu/release/bridge"
+TARGET_DIR = f"{HERE}/harness/target"
+BRIDGE = f"{TARGET_DIR}/x86_64-unknown-linux-gnu/release/bridge"
 VDIR = os.environ.get("VERIF_DIR", HERE)
 
 def to_choices(raw_prefix, data: bytes):
@@ -47,7 +48,7 @@ def main():
     jobs = int(os.environ.get("VERIF_THREADS", "16"))
     env = dict(os.environ, CARGO_NET_OFFLINE="true", VERIF_DIR=VDIR)
     t_start = time.time()
-    b = subprocess.run(["cargo", "+nightly", "fuzz", "build", "-O", "--fuzz-dir", FUZZ, "bridge"],
+    b = subprocess.run(["cargo", "+nightly", "fuzz", "build", "-O", "--fuzz-dir", FUZZ, "--target-dir", TARGET_DIR, "bridge"],
                        cwd=f"{HERE}/harness", env=env, capture_output=True, text=True)
     if b.returncode != 0 or not os.path.exists(BRIDGE):
         print("fuzz stage: build of the libFuzzer bridge failed (stage skipped, inconclusive):", file=sys.stderr)
